@@ -43,7 +43,7 @@ theorem parseClientData_ok {W : World} {b : Bytes} {cd : ClientData} :
   rw [runM_jsonLoadsBytesM_bind]
   cases h : W.jsonLoadsBytes b with
   | decodeError => simp
-  | otherError c => by_cases hc : c.startsWith "oom:" <;> simp [hc]
+  | otherError c => by_cases hc : c.startsWith "oom:" <;> by_cases hv : isValueErrorClass c <;> simp [hc, hv]
   | ok j =>
     simp only [runM_liftE]
     constructor
